@@ -17,3 +17,4 @@ PROP = dict(
           dict(name='C20_hyp_images', kind='hyp', script='harness/C20_hyp.py', args=['images'], quick=dict(scale=1), thorough=dict(scale=10, seeds=3)),
           dict(name='C20_hyp_traces', kind='hyp', script='harness/C20_hyp.py', args=['traces'], quick=dict(scale=1), thorough=dict(scale=8, seeds=3))],
 )
+PROP['rule'] += ' Traces are also recorded and saved after the application has installed a global C++ locale with digit grouping and either decimal point (2 of 5 cases).'
